@@ -216,12 +216,14 @@ func (e *Exec) runPar(c *Cmd, body []*Cmd, out *bufio.Writer) {
 	ordered := c.str("ordered", "0") == "1"
 	results := make([][]string, k)
 	var wg sync.WaitGroup
+	start := make(chan struct{}) // all goroutines leave the gate together
 	for g := 0; g < k; g++ {
 		wg.Add(1)
 		go func(g int) {
 			defer wg.Done()
 			sl := newSlots()
 			sl.par = true
+			<-start
 			for r := 0; r < rounds; r++ {
 				res := make([]string, len(body))
 				// each goroutine starts at a different offset so that different
@@ -248,6 +250,7 @@ func (e *Exec) runPar(c *Cmd, body []*Cmd, out *bufio.Writer) {
 			}
 		}(g)
 	}
+	close(start)
 	wg.Wait()
 	fmt.Fprintln(out, c.Raw)
 	for n, b := range body {
